@@ -445,6 +445,8 @@ def _run_history(ctx, world, ops, slog):
     V = build_validator(world, cls, healthy=False)
     scope0 = V.resolver.resolution_scope
     snap0 = snapshot(world)
+    from vf.obs import ambient
+    amb0 = ambient.snapshot()
     case = {"world": world.describe(), "history": [dict((k, v) for k, v in o.items() if not k.startswith("_")) for o in ops]}
     ctx.count("histories")
     ctx.case(case)
@@ -496,6 +498,11 @@ def _run_history(ctx, world, ops, slog):
         # --- purity
         if snapshot(world) != snap0:
             ctx.violation("mutation", where, "instance, schema or a store document changed during step %d (%s)" % (n, kind))
+            return
+        amb = ambient.snapshot()
+        if amb != amb0:
+            ctx.violation("ambient-state-changed", where, "after step %d (%s) the interpreter's ambient state differs (also while an iterator is "
+                          "suspended): %r" % (n, kind, ambient.diff(amb0, amb)))
             return
         # --- history independence
         callouts = (world.boom, world.format_boom, world.type_boom)
